@@ -61,7 +61,9 @@ PatOpen(p) == HasOpen(p.re) \/ (p.la.kind # "none" /\ HasOpen(p.la.re))
 AllPats(ci) == UNION { { Cfgs[ci].modes[m].pats[p] : p \in DOMAIN Cfgs[ci].modes[m].pats } : m \in DOMAIN Cfgs[ci].modes }
 Buildable(ci) == \A p \in AllPats(ci) : PatBuildable(p)
 \* the admissible results of build(): must fail / must succeed / open
-BuildVerdicts(ci) == IF ~Buildable(ci) THEN {FALSE}
+\* a configuration flagged `large` (more than 2^16 automaton states, C17) may also be rejected
+BuildVerdicts(ci) == IF "large" \in DOMAIN Cfgs[ci] THEN {TRUE, FALSE}
+                     ELSE IF ~Buildable(ci) THEN {FALSE}
                      ELSE IF \E p \in AllPats(ci) : PatOpen(p) THEN {TRUE, FALSE} ELSE {TRUE}
 
 -----------------------------------------------------------------------------
@@ -94,13 +96,14 @@ NewIterState(s, k, o) ==
 NextOutcomes(it) ==
   LET m == ModeOf(it.cfg, it.mode)
       w == W(it.inp)
-      i == FirstTokenPos(m, w, it.cur)
+      fb == FirstBest(m, w, it.cur)
+      i == fb[1]
   IN  IF i > Len(w)
         THEN { [tok |-> NoTok, cur |-> Len(w) + 1, mode |-> it.mode] }
         ELSE { LET t == TokOf(it.cfg, it.mode, it.inp, i, c) IN
                [tok |-> t, cur |-> c[2],
                 mode |-> IF HasTrans(m, t[1]) THEN TransTarget(m, t[1]) ELSE it.mode]
-               : c \in Best(m, w, i) }
+               : c \in fb[2] }
 
 \* the token lists peek_n(n) may return: what next() would return with the mode held
 \* fixed, cut after a token that triggers a switch, after n tokens, at the end of input
@@ -109,14 +112,15 @@ PeekPaths(ci, md, k, cur, n) ==
   IF n = 0 THEN { [toks |-> <<>>, sw |-> -1] }
   ELSE LET m == ModeOf(ci, md)
            w == W(k)
-           i == FirstTokenPos(m, w, cur)
+           fb == FirstBest(m, w, cur)
+           i == fb[1]
        IN  IF i > Len(w) THEN { [toks |-> <<>>, sw |-> -1] }
            ELSE UNION {
                   LET t == TokOf(ci, md, k, i, c) IN
                   IF HasTrans(m, t[1])
                     THEN { [toks |-> <<t>>, sw |-> TransTarget(m, t[1])] }
                     ELSE { [toks |-> <<t>> \o r.toks, sw |-> r.sw] : r \in PeekPaths(ci, md, k, c[2], n - 1) }
-                  : c \in Best(m, w, i) }
+                  : c \in fb[2] }
 
 \* classification; where the wording of C11 leaves two readings open both are admissible
 PeekKinds(r, n) ==
